@@ -218,6 +218,8 @@ pub enum OuterSel {
     /// exported by an earlier run of some bind): a closure returning it, or building on it,
     /// yields an invalid right-hand side
     Invalid(usize),
+    /// the k-th most recently created clean top-level scalar node (0 = the last one)
+    Recent(usize),
 }
 
 #[derive(Serialize, Deserialize, Clone, Debug, PartialEq)]
